@@ -414,6 +414,92 @@ def whole_reach(sh: int, ind: int, ensure_ascii: bool) -> bool:
     return not (r and sh == 21 and ind == 4)
 
 
+# ------------------------------------- (2b) the dump_json sinks and histories
+_DUMP_JSON = yatiml.dump_json_function()
+
+
+class _FailSink:
+    """A text sink whose k-th write fails."""
+
+    def __init__(self, k):
+        self.k = k
+
+    def write(self, data):
+        if self.k <= 0:
+            raise OSError('sink full')
+        self.k -= 1
+        return len(data)
+
+
+def _abort_one(kind, k):
+    """A JSON dump that starts and does not finish."""
+    shared = ['s']
+    try:
+        if kind == 1:           # alias in the middle of a document
+            _DUMPS_JSON({'a': {'b': [1, shared]}, 'c': shared})
+        elif kind == 2:         # the same through the sink variant
+            import io
+            _DUMP_JSON([{'x': [shared, shared]}], io.StringIO())
+        elif kind == 3:         # the sink fails on its k-th write
+            _DUMP_JSON({'a': [1, {'b': [2, 3]}], 'c': 'd'}, _FailSink(k),
+                       indent=2)
+    except (RuntimeError, OSError):
+        pass
+
+
+def _whole_sink(sh, lf, ind, ensure_ascii, abort, k):
+    import io
+    value = _fill(pick(SHAPES, sh), pick(LEAVES, lf))
+    indent = None if ind < 0 else ind
+    _abort_one(abort, k)
+    try:
+        s = io.StringIO()
+        _DUMP_JSON(value, s, indent=indent, ensure_ascii=ensure_ascii)
+        text = s.getvalue()
+        text2 = _DUMPS_JSON(value, indent=indent, ensure_ascii=ensure_ascii)
+    except (UnicodeEncodeError, yaml.YAMLError):
+        return None
+    if not SYMBOLIC:
+        note(value=repr(value), indent=indent, ensure_ascii=ensure_ascii,
+             after_aborted_dump=abort, failing_write=k, dump_json_text=text,
+             dumps_json_text=text2)
+    return (_check_text(text, value, indent, ensure_ascii)
+            and _check_text(text2, value, indent, ensure_ascii))
+
+
+def whole_sinks(sh: int, lf: int, ind: int, ensure_ascii: bool, abort: int,
+                k: int) -> bool:
+    """
+    pre: 0 <= sh < 24 and 0 <= lf < 30 and -1 <= ind <= 8
+    pre: 0 <= abort <= 3 and 0 <= k <= 12
+    post: __return__
+    """
+    if ind not in (-1, 2) or lf not in (13, 21, 23, 29):
+        return True
+    if abort != 3 and k != 0:
+        return True
+    if QUICK and (sh % 3 != 2 or k > 6):
+        return True
+    s = slice_no(-1)
+    if s >= 0 and abort != s:
+        return True
+    r = _whole_sink(sh, lf, ind, ensure_ascii, abort, k)
+    return True if r is None else r
+
+
+def whole_sinks_reach(sh: int, lf: int, ind: int, ensure_ascii: bool,
+                      abort: int, k: int) -> bool:
+    """
+    pre: 0 <= sh < 24 and 0 <= lf < 30 and -1 <= ind <= 8
+    pre: 0 <= abort <= 3 and 0 <= k <= 12
+    post: __return__
+    """
+    if ind != 2 or lf != 21 or sh != 17 or ensure_ascii:
+        return True
+    r = _whole_sink(sh, lf, ind, ensure_ascii, abort, k)
+    return not (r and abort == 3 and k == 5)
+
+
 # ------------------------------------------------------------ (3) reload
 def _printable_bmp(v):
     if isinstance(v, str):
@@ -473,7 +559,7 @@ def reload(f: int, x: int, ind: int, ensure_ascii: bool) -> bool:
 
 _RELOAD_MODELS = [values.MODEL_IDX[n] for n in
                   ('doc', 'styled', 'loose', 'opt', 'order', 'company',
-                   'lamp', 'derived', 'top_list', 'top_dict')]
+                   'lamp', 'derived', 'track', 'top_list', 'top_dict')]
 
 CONDITIONS = [
     {'fn': 'step', 'slices': list(range(8)), 'quick': 110, 'thorough': 400,
@@ -492,6 +578,15 @@ CONDITIONS = [
      'thorough': 400,
      'bound': '24 shapes (quick: 5 -- leaf, [leaf], {k: leaf}, {leaf: 1}, '
               'nested) x 30 leaves x indent None/0/2 x ensure_ascii'},
+    {'fn': 'whole_sinks', 'slices': [0, 1, 2, 3], 'quick': 110,
+     'thorough': 400, 'twin': 'whole_sinks_reach',
+     'bound': 'dump_json to an open text stream and dumps_json, each judged '
+              'on its own (strict JSON, content, ASCII/compact defaults): 24 '
+              'shapes (quick 8) x 4 leaves (plain, non-ASCII, non-BMP, date) '
+              'x indent None/2 x ensure_ascii, directly or after a JSON dump '
+              'of the same functions that was aborted half way (alias via '
+              'dumps_json, alias via dump_json, sink failing on its k-th '
+              'write, k <= 12 (quick 6)); slices by abort kind'},
     {'fn': 'reload', 'slices': _RELOAD_MODELS, 'quick': 110, 'thorough': 300,
      'bound': 'one slice per class model: every alternative of every factor '
               '(printable BMP, finite, no dates) x (compact ASCII | indent 2 '
